@@ -126,7 +126,7 @@ FORMS = [
     "A1=INSTR{_}({_}1{_},{_}B2${_},{_}C3${_})", "A1=VAL{_}({_}B2${_})", "A1$=STR${_}({_}B2{_})", "A1$=STRING${_}({_}3{_},{_}B2${_})", "A1$=INKEY$", "A1=JOYSTK{_}({_}0{_})",
     "A1=-{_}B2", "A1=NOT{+}B2", "A1=({_}B2{_}+{_}1{_}){_}*{_}2", "A1=B2{+}AND{+}C3{+}OR{+}D4", "A1=B2{_}^{_}2{_}/{_}C3{_}-{_}1",
     'IF{+}A1${_}={_}"x"{+}AND{+}B2{_}<{_}3{+}THEN{_}100', "IF{_}({_}A1{_}={_}1{_}){+}OR{+}NOT{_}({_}B2{_}>{_}2{_}){+}THEN{_}100",
-    "A1=1{_}:{_}B2=2{_}:{_}C3=3", "A1=&{_}H{_}FF", "A1=1{_}0", "A1=1{_}.{_}5{_}E{_}+{_}3", "A1=VARPTR{_}({_}B2{_})", "A1=PEEK{_}({_}1024{_})", "WIDTH{_}40", "LOCATE{_}1{_},{_}2", "A1=ERNO", "CLEAR{_}200", "A1=POINT{_}({_}1{_},{_}2{_})",
+    "A1=1{_}:{_}B2=2{_}:{_}C3=3", "A1=&{_}H{_}FF", "A1=1{_}0", "A1=1{_}.{_}5{_}E{_}+{_}3", "A1=1{_}E{_}5", "A1=2{_}E{_}-{_}3", "A1=.5{_}E{_}2", "A1=B2{_}+{_}3{_}E{_}1", "A1=VARPTR{_}({_}B2{_})", "A1=PEEK{_}({_}1024{_})", "WIDTH{_}40", "LOCATE{_}1{_},{_}2", "A1=ERNO", "CLEAR{_}200", "A1=POINT{_}({_}1{_},{_}2{_})",
 ]
 FORMS += [re.sub(r"^([A-Z]+) ", r"\\1{+}", t).replace("{e}", "A1").replace("{s}", "A1$").replace(",", "{_},{_}").replace("(", "{_}({_}").replace(")", "{_}){_}") for _, t, _, _ in ROWS]
 
@@ -192,5 +192,28 @@ def content():
     return guarded("content", run)
 
 
+def question_mark():
+    """`?` is Color BASIC's other spelling of PRINT: every PRINT form converts to the same text under both spellings"""
+    def run():
+        res = []
+        forms = sorted({f for f in FORMS if f.startswith("PRINT")} | {"PRINT{_}@{_}64", "PRINT{_}@{_}A1{_}+{_}1", 'PRINT{_}@{_}5{_},{_}"A"', "PRINT{+}A1", "PRINT{_}TAB{_}({_}3{_});A1"})
+        contexts = ["%s", "A1=1:%s", "%s:A1=1", "IF A1=1 THEN %s", "IF A1=1 THEN %s ELSE %s", "IF A1=1 THEN B2=2 ELSE %s"]
+        for tmpl in forms:
+            bad = []
+            for blanks in ("", " "):
+                body_p = tmpl.replace("{_}", blanks).replace("{+}", " " + blanks)
+                rest = tmpl[len("PRINT"):]
+                rest = rest[3:] if rest.startswith("{+}") or rest.startswith("{_}") else rest
+                body_q = "?" + blanks + rest.replace("{_}", blanks).replace("{+}", " " + blanks)
+                for ctx in contexts:
+                    a = convert_or_refusal("100 " + ctx.replace("%s", body_p) + "\n")
+                    b = convert_or_refusal("100 " + ctx.replace("%s", body_q) + "\n")
+                    if a != b:
+                        bad.append({"PRINT": (ctx.replace("%s", body_p), a[0], a[1][:80]), "?": (ctx.replace("%s", body_q), b[0], b[1][:80])})
+            res.append(ob("question-mark/" + tmpl.replace("{_}", "").replace("{+}", " "), not bad, "identical results for PRINT and ?", bad[:2] or "identical"))
+        return res
+    return guarded("question-mark", run)
+
+
 def obligations():
-    return boundaries() + forms() + line_structure() + content()
+    return boundaries() + forms() + line_structure() + content() + question_mark()
